@@ -37,3 +37,32 @@ pub fn vb_slice_from<'a>(s: &'a str, n: usize) -> (r: &'a str)
 pub fn vb_trim_start<'a>(s: &'a str) -> (r: &'a str) ensures bytes_of(r).len() <= bytes_of(s).len() { s.trim_start() }
 #[verifier::external_body]
 pub fn vb_trim<'a>(s: &'a str) -> (r: &'a str) ensures bytes_of(r).len() <= bytes_of(s).len() { s.trim() }
+
+/// a sub-slice obtained by trimming at the front is a SUFFIX of the original (std str::trim_start)
+#[verifier::external_body]
+pub fn vb_trim_start_suffix<'a>(s: &'a str) -> (r: &'a str)
+    ensures exists|k: int| 0 <= k <= bytes_of(s).len() && #[trigger] bytes_of(s).subrange(k, bytes_of(s).len() as int) == bytes_of(r)
+{ s.trim_start() }
+/// `s.find(pat)` for a non-empty pattern: byte index of the FIRST occurrence (on a character boundary, as is its end)
+pub open spec fn occurs_at(s: &str, pat: &str, i: int) -> bool {
+    0 <= i && i + bytes_of(pat).len() <= bytes_of(s).len() && bytes_of(s).subrange(i, i + bytes_of(pat).len()) == bytes_of(pat)
+}
+#[verifier::external_body]
+pub fn vb_find(s: &str, pat: &str) -> (r: Option<usize>)
+    requires bytes_of(pat).len() > 0
+    ensures r.is_some() ==> occurs_at(s, pat, r.unwrap() as int) && is_boundary(s, r.unwrap() as int) && is_boundary(s, r.unwrap() + bytes_of(pat).len())
+                            && forall|j: int| 0 <= j < r.unwrap() ==> !occurs_at(s, pat, j),
+            r.is_none() ==> forall|j: int| !occurs_at(s, pat, j),
+{ s.find(pat) }
+/// `&s[a..]` followed by `&t[..b]` keep boundaries: a boundary of a sub-slice is a boundary of the original (std)
+pub proof fn axiom_boundary_of_suffix(s: &str, t: &str, a: int, i: int)
+    ensures 0 <= a <= bytes_of(s).len() && is_boundary(s, a) && bytes_of(t) == bytes_of(s).subrange(a, bytes_of(s).len() as int)
+            ==> (is_boundary(t, i) <==> is_boundary(s, a + i))
+{ admit(); }
+/// `a.to_string() + b`
+pub uninterp spec fn bytes_of_string(s: String) -> Seq<u8>;
+#[verifier::external_body]
+pub fn vb_concat(a: &str, b: &str) -> (r: String) ensures bytes_of_string(r) == bytes_of(a) + bytes_of(b) { a.to_string() + b }
+/// `prev.trim_end().as_bytes()` ends with the bytes of `w` and is strictly longer
+#[verifier::external_body]
+pub fn vb_trimmed_ends_with_longer(prev: &str, w: &str) -> (r: bool) { let p = prev.trim_end().as_bytes(); p.len() > w.len() && &p[p.len()-w.len()..] == w.as_bytes() }
